@@ -20,6 +20,7 @@ import Golib.Proof.C06Count
 import Golib.Proof.C06Facts
 import Golib.Proof.C05Rebuild
 import Golib.Proof.C05Driver
+import Golib.Proof.C05PtrAll
 import Golib.Model.C06
 
 namespace Golib.C06
@@ -279,6 +280,21 @@ theorem c06_call_history :
     (∀ (s s' : DState) (ts : List String), mutOp s ts = none →
       (stepWith runOp s ts).2 = some s' → s'.t = s.t ∧ s'.dirty = s.dirty) :=
   ⟨answers_prefix_stable runOp, query_keeps_trie runOp⟩
+
+/-- `Replace` / `ReplaceWithMask` over the POINTER-level trie (`Golib/Model/C05Ptr.lean`,
+`c05_pointer_refines_label`): they use the trie only through `find`, and the pointer-level
+`find` of a state that represents the label trie returns the label-level scopes — so both
+functions computed from the pointer model's scopes are the ones the theorems above are about. -/
+theorem c06_pointer_refines (pt : PTrie) (t : Trie) (lbl : List Label) (h : Rep pt t lbl)
+    (text repl : List Nat) (mask : Int) (scopes : List Scope) (hf : t.find text = some scopes) :
+    pt.find text = some scopes ∧
+    replace t text repl = (mergeScopes scopes).bind (fun m => replLoop text repl m 0 []) ∧
+    replaceWithMask t text mask = (mergeScopes scopes).bind (fun m => maskLoop text mask m 0 []) := by
+  refine ⟨pfind_api pt t lbl h text scopes hf, ?_, ?_⟩
+  · simp only [replace, replaceWith, hf, mergeScopes]
+    cases mergeScopesWith true scopes <;> rfl
+  · simp only [replaceWithMask, replaceWithMaskWith, hf, mergeScopes]
+    cases mergeScopesWith true scopes <;> rfl
 
 /-- The source expressions and statements of `algz/trie.go` the model is written against
 (re-extracted by go/ast on every run into `Golib/Gen/FactsC06.lean`) are the ones the model
